@@ -32,7 +32,7 @@ REQUIRED = ['recursiveloader:ManifestLoader.verify_and_load', 'chain_invariant_c
             'api:assert_directory_verifies-root', 'api:find_dist_entry',
             'baseline_accepts', 'stealth_cases_judged', 'weak_cases_judged',
             'twin_cases_judged', 'api:assert_directory_verifies-dir-k',
-            'double_cases_judged']
+            'double_cases_judged', 'rmdir_cases_judged', 'sibling_updates_failed']
 ASSUMPTIONS = ['update mode deliberately loads without verification; only loaders '
                'that were not asked to update are covered',
                'the attacker cannot produce hash collisions']
@@ -68,6 +68,14 @@ def units(tier, seed):
         for draw in range(6 if tier == 'quick' else 40):
             u.append({'k': 'chain', 'depth': depth, 'tamper': 'change',
                       'draw': 300 + draw, 'twin': True})
+    for depth in (1, 2, 3):
+        for draw in range(2 if tier == 'quick' else 20):
+            u.append({'k': 'chain', 'depth': depth, 'tamper': 'remove',
+                      'draw': 500 + draw, 'rmdir': True})
+    for depth in (1, 2):
+        for draw in range(1 if tier == 'quick' else 8):
+            u.append({'k': 'chain', 'depth': depth, 'tamper': 'change',
+                      'draw': 600 + draw, 'sibling': True})
     # every sub-Manifest listed by two accepted Manifests with disjoint hash sets;
     # the attacker keeps sizes and timestamps
     for depth in (1, 2, 3):
@@ -85,7 +93,7 @@ def setup_worker(ctx):
     common.use_repo()
 
 
-def build(rng, root, depth, weak=None, double=False):
+def build(rng, root, depth, weak=None, double=False, broken_sibling=False):
     """Nested chain with data files at every level and DIST entries.  With
     @weak, every Manifest is plain and the MANIFEST entries carry only hash names
     that cannot be computed here (an unverifiable link)."""
@@ -150,6 +158,15 @@ def build(rng, root, depth, weak=None, double=False):
         layout['mans'][target]['entries'].append(
             {'tag': 'DIST', 'path': 'dist-%d.tar' % li, 'size': 10 + li,
              'sums': {'SHA512': '%0128x' % rng.getrandbits(512)}})
+    if broken_sibling:
+        # a directory next to the chain whose (correctly listed) Manifest is not a
+        # Manifest at all: loading it fails whatever the verification setting
+        os.makedirs(os.path.join(root, 'zz'))
+        junk = b'this is not a Manifest\n'
+        with open(os.path.join(root, 'zz', 'Manifest'), 'wb') as f:
+            f.write(junk)
+        layout['mans']['Manifest']['entries'].append(
+            mtext.file_entry('MANIFEST', 'zz/Manifest', junk, ['SHA256']))
     glayout.render(root, layout)
     if double:
         # the cross references (second Manifest of one level -> Manifest of the next)
@@ -193,7 +210,7 @@ def run_case(ctx, root, case, layout, dirs, chain, files):
     top = os.path.join(root, 'Manifest')
     # ---- baseline sanity: consistent tree verifies
     try:
-        if case.get('weak'):
+        if case.get('weak') or case.get('sibling'):
             raise StopIteration
         m = ManifestRecursiveLoader(top, verify_openpgp=False)
         if m.assert_directory_verifies('') is not True:
@@ -253,6 +270,12 @@ def run_case(ctx, root, case, layout, dirs, chain, files):
     if k > idx:
         k = idx
         forged = [tman]
+    if case.get('sibling') and any(os.path.dirname(fm) == '' for fm in forged):
+        # the (failing) update of the sibling directory legitimately loads every
+        # Manifest of the top directory without verification (update mode, see
+        # ASSUMPTIONS): only chains forged further down are in the domain here
+        ctx.discarded('forged Manifest covers the updated sibling directory')
+        return
     if case.get('double'):
         # the attacker also recomputes the second Manifest of every forged level
         # (it lists the forged Manifest of the level below)
@@ -290,7 +313,8 @@ def run_case(ctx, root, case, layout, dirs, chain, files):
         # (other Manifest files of the same directory are not this Manifest's
         # business when it is looked at as a top-level one)
         real = {p: k for p, k in sub.required.items()
-                if not ('/' not in p and p.startswith('Manifest') and k == 'stray')}
+                if not ('/' not in p and p.startswith('Manifest') and k == 'stray')
+                and not (case.get('sibling') and p.startswith('zz/'))}
         if real or sub.chain or sub.incompatible:
             ctx.inconsistent('attacker left an inconsistent subtree: %r'
                              % (sub.summary(),), case)
@@ -306,8 +330,16 @@ def run_case(ctx, root, case, layout, dirs, chain, files):
         ctx.count('stealth_cases_judged')
     if case.get('weak'):
         ctx.count('weak_cases_judged')
-    m = ManifestRecursiveLoader(top, verify_openpgp=False)
+    m = ManifestRecursiveLoader(top, verify_openpgp=False, hashes=['SHA256'])
     result = None
+    if case.get('sibling'):
+        # history on the loader: an update (loads without verification) of the broken
+        # sibling directory fails, the caller catches the error and goes on
+        try:
+            m.update_entries_for_directory('zz')
+            ctx.count('sibling_update_did_not_fail')
+        except Exception:
+            ctx.count('sibling_updates_failed')
     try:
         # histories: an innocent lookup on the same loader first (as the CLI does)
         pre = case.get('pre')
@@ -373,6 +405,8 @@ def run_case(ctx, root, case, layout, dirs, chain, files):
     except Exception as exc:
         if case.get('weak') and type(exc).__name__ == 'UnsupportedHash':
             return      # the link cannot be checked here: refusing is right
+        if case.get('sibling') and type(exc).__name__ == 'ManifestSyntaxError':
+            return      # whole-tree calls meet the broken sibling first
         chain_invariant(ctx, root, m, case)
         ctx.violation('tamper-raises:' + adapt.exc_key(exc), 'forged chain below level '
                       '%d makes %s raise %r instead of ManifestMismatch' % (k, api, exc),
@@ -464,19 +498,77 @@ def run_twin(ctx, root, case, layout, dirs, chain, files):
                       'verified %r' % (api, result, twin, victim), case)
 
 
+def run_rmdir(ctx, root, case, layout, dirs, chain, files):
+    """No Manifest is touched: the deepest directory is removed altogether (its files
+    and its Manifest).  Everything that was listed there is missing now, and every
+    API must say so - the sub-Manifest itself cannot be loaded any more."""
+    import shutil
+    from gemato.exceptions import ManifestMismatch
+    from gemato.recursiveloader import ManifestRecursiveLoader
+    tdir = dirs[-1]
+    if not tdir:
+        ctx.discarded('chain of depth 0')
+        return
+    probe = sorted(f for f in files if os.path.dirname(f) == tdir)[0]
+    dist_name = 'dist-%d.tar' % (len(dirs) - 1)
+    shutil.rmtree(os.path.join(root, tdir))
+    api = case['api']
+    ctx.case(sig=('c02-rmdir', case['depth'], api), case=case, klass='rmdir')
+    ctx.count('rmdir_cases_judged')
+    m = ManifestRecursiveLoader(os.path.join(root, 'Manifest'), verify_openpgp=False)
+    try:
+        if api == 'verify_path':
+            r = m.verify_path(probe)
+            bad = r[0] is True
+        elif api == 'assert_path_verifies':
+            m.assert_path_verifies(probe)
+            bad, r = True, 'returned'
+        elif api == 'find_path_entry':
+            r = m.find_path_entry(probe)
+            bad = r is None
+            r = None if r is None else adapt.norm_gemato(r)
+        elif api == 'find_dist_entry':
+            r = m.find_dist_entry(dist_name, tdir)
+            bad = r is None
+            r = None if r is None else adapt.norm_gemato(r)
+        elif api == 'assert_directory_verifies-root':
+            r = m.assert_directory_verifies('')
+            bad = bool(r)
+        else:
+            r = m.assert_directory_verifies(os.path.dirname(tdir))
+            bad = bool(r)
+    except ManifestMismatch:
+        return
+    except Exception as exc:
+        from gemato.exceptions import GematoException
+        if isinstance(exc, (GematoException, OSError)):
+            return
+        ctx.violation('rmdir-raises:' + adapt.exc_key(exc), '%s raised %r' % (api, exc),
+                      case)
+        return
+    if bad:
+        ctx.violation('removed-directory-not-noticed:' + api, '%s -> %r although the '
+                      'directory %r (with its Manifest) is gone' % (api, r, tdir), case)
+
+
 def gen_and_run(ctx, u, k, api, seed):
     rng = common.rng_for(ctx.seed, ID, u['depth'], u['tamper'], u['draw'])
     with common.Scratch('vf-c02-') as d:
         root = os.path.join(d, 't')
         layout, dirs, chain, files = build(rng, root, u['depth'],
                                            u.get('weak') or u.get('stealth'),
-                                           double=bool(u.get('double')))
+                                           double=bool(u.get('double')),
+                                           broken_sibling=bool(u.get('sibling')))
         case = {'kind': 'c02', 'depth': u['depth'], 'tamper': u['tamper'],
                 'draw': u['draw'], 'k': k, 'api': api, 'seed': seed,
                 'gen_seed': ctx.seed, 'weak': u.get('weak'),
                 'stealth': u.get('stealth'), 'double': u.get('double'),
+                'sibling': u.get('sibling'),
                 'pre': [None, 'find_timestamp', 'find_dist'][seed % 3]}
-        if u.get('twin'):
+        if u.get('rmdir'):
+            case['rmdir'] = True
+            run_rmdir(ctx, root, case, layout, dirs, chain, files)
+        elif u.get('twin'):
             case['twin'] = True
             run_twin(ctx, root, case, layout, dirs, chain, files)
         else:
@@ -485,6 +577,10 @@ def gen_and_run(ctx, u, k, api, seed):
 
 
 def run_unit(u, ctx):
+    if u.get('rmdir'):
+        for n, api in enumerate(TWIN_APIS):
+            gen_and_run(ctx, u, 0, api, n)
+        return
     if u.get('twin'):
         for n, api in enumerate(TWIN_APIS):
             for v in range(2):
@@ -495,7 +591,8 @@ def run_unit(u, ctx):
         root = os.path.join(d, 't')
         layout, dirs, chain, files = build(rng, root, u['depth'],
                                            u.get('weak') or u.get('stealth'),
-                                           double=bool(u.get('double')))
+                                           double=bool(u.get('double')),
+                                           broken_sibling=bool(u.get('sibling')))
         nchain = len(chain)
     n = 0
     for k in range(1, nchain):
@@ -510,5 +607,6 @@ def replay(case, ctx):
     ctx.seed = case.get('gen_seed', ctx.seed)
     u = {'depth': case['depth'], 'tamper': case['tamper'], 'draw': case['draw'],
          'weak': case.get('weak'), 'stealth': case.get('stealth'),
-         'twin': case.get('twin'), 'double': case.get('double')}
+         'twin': case.get('twin'), 'double': case.get('double'),
+         'rmdir': case.get('rmdir'), 'sibling': case.get('sibling')}
     gen_and_run(ctx, u, case['k'], case['api'], case['seed'])
